@@ -3,6 +3,7 @@ CONSTANTS
   Tree = "T3"
   EnvFull = FALSE
   AoptFull = FALSE
+  WithDcf = TRUE
   Emit = TRUE
 INVARIANT AlgIsSelect
 INVARIANT OneSectionPerLevel
